@@ -27,14 +27,14 @@ def run_one(d):
         if r.returncode != 0:
             return dict(name=name, status="SKIPPED", why="does not apply: " + (r.stderr or r.stdout)[-200:], s=0)
         try:
-            facts, m = F.load(repo=wt, use_cache=False)
+            facts, m = F.load(repo=wt, use_cache=False, release=(meta.get("config") == "release"))
         except F.BuildError as e:
             return dict(name=name, status="NOBUILD", why=str(e)[-300:], s=time.time() - t0)
         ix = mir.Index(facts)
         fired = {}
         for prop in props:
             mod = importlib.import_module("rules." + prop.lower())
-            ctx = engine.run_rules(prop, mod.RULES, ix, "dev")
+            ctx = engine.run_rules(prop, mod.RULES, ix, meta.get("config") or "dev")
             fired[prop] = [i.key for i in ctx.insts if not i.ok and not i.note]
         try:
             os.remove(m["facts_file"])
